@@ -40,4 +40,5 @@ package exec
 //@   uses num
 //@   ensures isNaN(n) ==> isNaN(r)                         @nan
 //@   ensures isInf(n) ==> r == n                           @inf
-//@   ensures !isNaN(n) && !isInf(n) ==> xpround(n, r)      @nearest
+//@   ensures !isNaN(n) && !isInf(n) && !negtie(n) ==> xpround(n, r)   @nearest
+//@   ensures negtie(n) ==> xpround(n, r)                              @nearest-negtie
